@@ -1,5 +1,6 @@
 """C13 - cell-width arithmetic and line shaping are exact and history-independent."""
 from rv.core.runner import WL
+from rv.monitor.poison import call_poison_call
 from rv.gen import strings as S
 from rv.model import cellref
 
@@ -14,7 +15,7 @@ RULE = ("codepoints: every one of the 1,114,112 code points is compared with a l
         "distinct = distinct (workload, input) signatures.")
 ASSUMPTIONS = ["contents of rich/_cell_widths.py CELL_WIDTHS are the Unicode width table (trusted data)",
                "reference width = independent linear walk over that table"]
-REQUIRED = ["mon.codepoint", "mon.codepoint_orders", "mon.cell_len", "mon.cache_history", "mon.set_cell_size",
+REQUIRED = ["mon.result_poisoning", "mon.codepoint", "mon.codepoint_orders", "mon.cell_len", "mon.cache_history", "mon.set_cell_size",
             "mon.chop_cells", "mon.adjust_line_length", "mon.split_and_crop", "mon.set_shape",
             "mon.simplify", "mon.split_lines"]
 MIN_NONTRIVIAL = {"quick": 2000, "thorough": 20000}
@@ -208,6 +209,10 @@ def wl_chop_cells(ctx, rng, case_no):
     position = rng.randint(0, width) if rng.random() < 0.5 else 0
     pieces = cells.chop_cells(s, width, position=position)
     ctx.count("mon.chop_cells")
+    if rng.random() < 0.3:
+        call_poison_call(ctx, "chop_cells", lambda: cells.chop_cells(s, width, position=position), list,
+                         {"s": s, "width": width, "pos": position})
+        pieces = cells.chop_cells(s, width, position=position)
     if "".join(pieces) != s:
         ctx.violation("chop_cells-not-concat", {"s": s, "width": width, "pos": position,
                                                 "pieces": pieces})
@@ -322,6 +327,10 @@ def wl_adjust(ctx, rng, case_no):
     pad_style = rng.choice(_styles())
     src_items = _flat(line)
     keep = list(line)
+    if rng.random() < 0.3:
+        call_poison_call(ctx, "adjust_line_length",
+                         lambda: Segment.adjust_line_length(list(line), length, style=pad_style, pad=pad),
+                         _seg_repr, {"line": _seg_repr(keep), "length": length, "pad": pad})
     out = Segment.adjust_line_length(line, length, style=pad_style, pad=pad)
     ctx.count("mon.adjust_line_length")
     if line != keep:
@@ -371,6 +380,11 @@ def wl_split_crop(ctx, rng, case_no):
     pad_style = rng.choice(_styles())
     incl = rng.random() < 0.5
     ref_lines = _ref_split(segs)
+    if rng.random() < 0.3:
+        call_poison_call(ctx, "split_and_crop_lines",
+                         lambda: list(Segment.split_and_crop_lines(list(segs), length, style=pad_style, pad=pad,
+                                                                   include_new_lines=incl)),
+                         lambda r: [_seg_repr(l) for l in r], {"segments": _seg_repr(segs), "length": length})
     out = [list(l) for l in Segment.split_and_crop_lines(
         list(segs), length, style=pad_style, pad=pad, include_new_lines=incl)]
     ctx.count("mon.split_and_crop")
@@ -399,6 +413,10 @@ def wl_set_shape(ctx, rng, case_no):
     width = rng.choice([0, 1, 2, 3, 5, 8, 13])
     height = rng.choice([None, len(lines), len(lines) + 1, len(lines) + 3])
     pad_style = rng.choice(_styles())
+    if rng.random() < 0.3:
+        call_poison_call(ctx, "set_shape",
+                         lambda: Segment.set_shape([list(l) for l in lines], width, height, style=pad_style),
+                         lambda r: [_seg_repr(l) for l in r], {"lines": [_seg_repr(l) for l in lines], "width": width})
     out = Segment.set_shape([list(l) for l in lines], width, height, style=pad_style)
     ctx.count("mon.set_shape")
     wit = {"lines": [_seg_repr(l) for l in lines], "width": width, "height": height,
@@ -433,6 +451,9 @@ def wl_simplify_split(ctx, rng, case_no):
             mech = "simplify-merges-control-segment"
         ctx.violation(mech, wit)
     # split_lines: rejoining gives the input back
+    if rng.random() < 0.3:
+        call_poison_call(ctx, "split_lines", lambda: list(Segment.split_lines(list(segs))),
+                         lambda r: [_seg_repr(l) for l in r], {"segments": _seg_repr(segs)})
     lines = [list(l) for l in Segment.split_lines(list(segs))]
     ctx.count("mon.split_lines")
     ref = _ref_split(segs)
